@@ -13,6 +13,9 @@ Part 3 (the property itself, on the real code): scenarios
         every rank's results must be BITWISE equal to the single-process results.
 """
 import hashlib
+import os
+import shutil
+import tempfile
 
 from core.ctx import canon
 from props import _mpi_fakempi as fm
@@ -116,7 +119,7 @@ def _build(spec):
     return dom, op, lh
 
 
-def _scen_kl(comm, spec):
+def _scen_kl(comm, spec, root=None):
     import nifty.cl as ift
     dom, op, lh = _build(spec)
     ic = ift.GradientNormController(iteration_limit=spec.get("cg", 5))
@@ -153,7 +156,7 @@ def _sl_sample(spec, i):
     return ift.makeField(dom, arr)
 
 
-def _scen_sl(comm, spec):
+def _scen_sl(comm, spec, root=None):
     import nifty.cl as ift
     p = 1 if comm is None else comm.Get_size()
     r = 0 if comm is None else comm.Get_rank()
@@ -183,7 +186,7 @@ def _scen_sl(comm, spec):
     return out
 
 
-def _scen_okl(comm, spec):
+def _scen_okl(comm, spec, root=None):
     import nifty.cl as ift
     dom, op, lh = _build(spec)
     ns = spec["ns"]
@@ -196,12 +199,35 @@ def _scen_okl(comm, spec):
     def inspect(sl, i):
         seen.append([int(i), int(sl.n_samples), _digest(sl.average())])
 
-    sl, mean = ift.optimize_kl(lh, len(ns), lambda i: ns[i], mini, ic, nonlinear_sampling_minimizer=geo,
-                               output_directory=None, return_final_position=True, comm=comm,
-                               constants=lambda i: const.get(str(i), []), point_estimates=lambda i: pe.get(str(i), []),
-                               inspect_callback=inspect, plot_energy_history=False, plot_minisanity_history=False)
-    out = {"mean": _enc(mean), "n_samples": int(sl.n_samples), "samples": [_enc(s) for s in sl.iterator()],
-           "inspect": seen, "rng_depth": len(ift.random._sseq)}
+    kw = dict(nonlinear_sampling_minimizer=geo, return_final_position=True, comm=comm,
+              constants=lambda i: const.get(str(i), []), point_estimates=lambda i: pe.get(str(i), []),
+              inspect_callback=inspect, plot_energy_history=False, plot_minisanity_history=False)
+    out = {}
+    if spec.get("odir") and len(ns) >= 2:
+        # with an output directory: exports + pickles written under MPI, then a second call that RESUMES from disk
+        odir = os.path.join(root, f"okl_{spec['seed']}_{'ser' if comm is None else comm.Get_size()}")
+        kw.update(output_directory=odir, export_operator_outputs={"sig": op}, resume=True)
+        ift.optimize_kl(lh, len(ns) - 1, lambda i: ns[i], mini, ic, **kw)
+        sl, mean = ift.optimize_kl(lh, len(ns), lambda i: ns[i], mini, ic, **kw)
+        base = os.path.join(odir, "pickle", "latest")
+        if os.path.isfile(base + ".mean.pickle"):
+            dsl = ift.ResidualSampleList.load(base, comm=comm)
+        else:
+            dsl = ift.SampleList.load(base, comm=comm)
+        out["disk_samples"] = [_enc(s) for s in dsl.iterator()]
+        out["last_finished"] = open(os.path.join(odir, "last_finished_iteration")).read()
+        try:
+            import h5py
+            import numpy as np
+            with h5py.File(os.path.join(odir, "sig", "latest.hdf5") if os.path.isfile(os.path.join(odir, "sig", "latest.hdf5"))
+                           else os.path.join(odir, "sig", "last.hdf5"), "r") as f:
+                out["h5_mean"] = _hexes(np.array(f["stats/mean"]))
+        except Exception as e:  # noqa: BLE001
+            out["h5_mean"] = sorted(os.listdir(os.path.join(odir, "sig"))) if os.path.isdir(os.path.join(odir, "sig")) else type(e).__name__
+    else:
+        sl, mean = ift.optimize_kl(lh, len(ns), lambda i: ns[i], mini, ic, output_directory=None, **kw)
+    out.update({"mean": _enc(mean), "n_samples": int(sl.n_samples), "samples": [_enc(s) for s in sl.iterator()],
+                "inspect": seen, "rng_depth": len(ift.random._sseq)})
     m, v = sl.sample_stat(op)
     out["stat_mean"], out["stat_var"] = _enc(m), _enc(v)
     out["local"] = dict(indices=[int(i) for i in sl.local_indices])
@@ -211,7 +237,7 @@ def _scen_okl(comm, spec):
 SCEN = {"kl": _scen_kl, "sl": _scen_sl, "okl": _scen_okl}
 
 
-def _job(comm, specs, serial):
+def _job(comm, specs, serial, root):
     import nifty.cl as ift
     out = []
     for i, spec in enumerate(specs):
@@ -219,7 +245,7 @@ def _job(comm, specs, serial):
         d0 = len(ift.random._sseq)
         ift.random.push_sseq_from_seed(spec["seed"])
         try:
-            out.append(SCEN[spec["scen"]](None if serial else comm, spec))
+            out.append(SCEN[spec["scen"]](None if serial else comm, spec, root))
         except fm.FakeMPIError:
             raise
         except Exception as e:  # noqa: BLE001
@@ -232,7 +258,11 @@ def _job(comm, specs, serial):
 
 def _run(specs, p, serial=False, timeout=900.0, mode="coop"):
     """-> (list per spec of list per rank of outputs, failure info or None)"""
-    res = fm.run(1 if serial else p, _job, specs, serial, seed=None, timeout=timeout, mode=mode)
+    root = tempfile.mkdtemp(prefix="c22_")
+    try:
+        res = fm.run(1 if serial else p, _job, specs, serial, root, seed=None, timeout=timeout, mode=mode)
+    finally:
+        shutil.rmtree(root, ignore_errors=True)
     n = 1 if serial else p
     outs = [[(res.values[r][i] if res.returned[r] and i < len(res.values[r]) else None) for r in range(n)]
             for i in range(len(specs))]
@@ -311,7 +341,7 @@ def shrink(case):
 def _gen_specs(ctx):
     rng = ctx.rng
     specs = []
-    nkl = ctx.n(8, 48)
+    nkl = ctx.n(8, 32)
     combos = [(n, m) for n in (1, 2, 3, 4) for m in (True, False)]
     rng.shuffle(combos)
     for i in range(nkl):
@@ -330,7 +360,7 @@ def _gen_specs(ctx):
         if rng.random() < 0.3:
             s["geo"] = True
         specs.append(s)
-    for i in range(ctx.n(5, 30)):
+    for i in range(ctx.n(5, 20)):
         n = rng.randrange(1, 9)
         parts = {}
         for p in P_ALL:
@@ -343,7 +373,7 @@ def _gen_specs(ctx):
         specs.append(dict(scen="sl", seed=rng.randrange(1 << 30), n=n, parts=parts, multi=rng.random() < 0.5,
                           full=not ctx.quick,
                           nonlin=rng.random() < 0.5, vals=[rng.choice(NASTY) for _ in range(5)]))
-    for i in range(ctx.n(2, 12)):
+    for i in range(ctx.n(2, 8)):
         ns = [0] + [rng.randrange(1, 4) for _ in range(rng.randrange(1, 3))] if i % 2 == 0 else \
             [rng.randrange(1, 4) for _ in range(2)]
         s = dict(scen="okl", seed=rng.randrange(1 << 30), ns=ns, model=rng.randrange(2))
@@ -353,6 +383,8 @@ def _gen_specs(ctx):
             s["pe"] = {str(rng.randrange(len(ns))): ["b"]}
         if rng.random() < 0.3:
             s["geo"] = True
+        if i % 2 == 1:
+            s["odir"] = True     # output directory + exports + resume from disk
         specs.append(s)
     return specs
 
